@@ -47,7 +47,7 @@ PROPS = {
                     'consequence for whole data-movement programs (composition over compile)'],
     ),
     'C02': dict(
-        units=['panic'],
+        units=['panic', 'branches'],
         deps=[('builder', 'C04')],
         kani=[dict(name='c02_unsigned_as_usize_bits', fn='circuit::unsigned_as_usize_bits', label='complete-over-u64',
                    bound='all u64 values; the 32-iteration loop fully unrolled (unwinding assertions on)')],
@@ -55,21 +55,33 @@ PROPS = {
         witness_thorough=['c02', '--random', '400000'],
         level='proof',
         technique='Verus contracts on the real push_panic_if / mux_uncached_panic / mux_panic / replace_panic_with, with the '
-                  'recorded-conditions invariant; gate-emitting callees by their contracts (proved in unit builder)',
+                  'recorded-conditions invariant; the If, &&, || and Match arms of TypedExpr::compile lifted (R5) with the recursive compile calls as '
+                  'opaque functions carrying the induction hypothesis; gate-emitting callees by their contracts (proved in unit builder)',
         claim='Unbounded deductive proof (Verus/Z3) on the real panic-record functions: after push_panic_if the record reports a panic iff '
               'one was reported before or the condition holds, an earlier panic is never overwritten, and otherwise reason and location '
               'are those of this (first) failing operation; at a merge (mux_uncached_panic / mux_panic) every wire of the record is that '
               'of the branch taken and only conditions recorded on both paths stay recorded; replace_panic_with is a pure swap. For every '
-              'builder state, record, condition wire and input assignment. Which operations call push_panic_if with which condition '
-              '(compile arms) is outside every contract; a bounded differential search over operation trees on the real code stands in '
-              'for build/EvalPanic layout (labelled bounded).',
+              'builder state, record, condition wire and input assignment. Branching arms of TypedExpr::compile (unit branches, structural '
+              'induction: the recursive compile calls are opaque functions whose contract is the induction hypothesis "well-formed, wires keep '
+              'their functions, a panic once raised is never dropped or overwritten"): the If arm compiles the condition first, both branches '
+              'from the record as it was after the condition, and merges so that the record is wire for wire that of the branch taken; the && '
+              'and || arms leave the record after x wherever x alone decides (the short-circuited operand is silent); the Match arm compiles '
+              'every clause from the record before the match and the first clause whose pattern matches decides the record (and the result '
+              'wires); each arm re-establishes the induction hypothesis. Which operations call push_panic_if with which condition is proved '
+              'for the arithmetic arms under C03; blocks, let / assignment, function calls, array access and for / for-join loops are outside '
+              'every contract; a bounded differential search over operation trees and source programs on the real code stands in for them '
+              'and for build/EvalPanic layout (labelled bounded).',
         note='Trusted: core builder contracts are proved in unit builder (run as part of this check); vstd specs of HashSet/arrays; '
              'std::mem::replace specification (assume_specification); unsigned_as_usize_bits contract (external_body in Verus; proved complete over u64 by the Kani '
              'harness c02_unsigned_as_usize_bits); source locations < 2^32. '
-             'Unverified: the save/restore/mux protocol around branches inside compile (If/Match/&&/||/JoinLoop arms).',
+             'Unit branches: TExpr / TPat / TypedProgram / Env are opaque types; TExpr::compile and TPat::compile are external_body with the '
+             'induction hypothesis as contract (structural induction is not closed by Verus over the real recursive function); mux_envs, Env::clone / '
+             'push / pop are external_body (they do not touch the record); derived Clone of CachedPanicResult returns an equal value (external_body); '
+             'ghost out-parameters are added to the lifted arms. Unverified: for / for-join loops, blocks, calls, array access.',
         title='panic record: panic iff earlier or cond; never overwritten; first failure wins; untaken branch silent at merges',
-        unverified=['which operations call push_panic_if with which condition (C03 for arithmetic; compile arms otherwise)',
-                    'save/restore/mux protocol around branches in TypedExpr::compile / TypedStmt::compile',
+        unverified=['which operations call push_panic_if with which condition (C03 for the operators; array access and casts otherwise)',
+                    'for / for-join loop lowering (compile_bitonic_merge), blocks, let / assignment statements, function calls: bounded differential only',
+                    'the induction over the whole of TypedExpr::compile is not closed mechanically (each branching arm is proved against the hypothesis)',
                     'EvalPanic::parse and build (panic record wiring to outputs): bounded differential search only'],
     ),
     'C16': dict(
@@ -252,8 +264,8 @@ PROPS = {
         unverified=['last_use_map', 'RegisterAllocator::convert_circuit loop', 'register_circuit::Circuit::validate / eval (see C16)'],
     ),
     'C08': dict(
-        units=['patterns', 'typing', 'patlower'],
-        deps=[('builder', 'C04'), ('arith', 'C03')],
+        units=['patterns', 'typing', 'patlower', 'branches'],
+        deps=[('builder', 'C04'), ('arith', 'C03'), ('panic', 'C02')],
         witness=['c08', '--random', '4000'],
         witness_thorough=['c08', '--random', '400000'],
         level='proof',
@@ -268,8 +280,9 @@ PROPS = {
               'value of the constructor; hence (lemma) for every returned constructor and each of its values v, specialize keeps exactly the arms whose head '
               'matches v. (3) lowering: the NumUnsigned / NumSigned arms of TypedPattern::compile return a wire that is true exactly when the scrutinee value '
               'equals the literal, the Unsigned- / SignedInclusiveRange arms exactly when min <= value <= max (signed or unsigned comparison as the type '
-              'demands). NOT under contract: the usefulness recursion (usefulness, split_ctor, non-integer constructors), the first-match chain of the Match '
-              'arm (has_prev_match / mux), tuple / struct / enum patterns, parsing: as the labelled bounded stand-in, random and directed arm lists over 12 '
+              'demands). (4) first match: the Match arm of TypedExpr::compile (unit branches; clause patterns and bodies compiled by opaque recursive '
+              'calls) returns, for every input, the result wires of the first clause whose match wire is true. NOT under contract: the usefulness '
+              'recursion (usefulness, split_ctor, non-integer constructors), tuple / struct / enum patterns, parsing: as the labelled bounded stand-in, random and directed arm lists over 12 '
               'scrutinee types (incl. bounds outside the type, empty and inverted ranges) are decided on the real checker and compared with brute-force '
               'enumeration (accepted exactly when every value is matched; every accepted match compiled and evaluated against the first matching arm).',
         note='Trusted: <[T]>::sort_unstable returns a sorted permutation and Vec::dedup keeps the same elements and makes a sorted vector strictly increasing '
@@ -279,10 +292,9 @@ PROPS = {
              '"bounds fit the width" are preconditions of the lowering arms (established by pattern typing, whose call of expect_pattern_in_range is not '
              'under contract); vstd; rules R0, R5, R5c, R7, R10, R11. Oracle of the bounded part: the pattern matcher in replay/src/c08.rs.',
         title='match on integers: pattern bounds checked against the type, constructor splitting covers / is homogeneous, specialize and the lowering of '
-              'literal and range patterns exact (proved); usefulness recursion and first-match chain by bounded differential',
+              'literal and range patterns exact, first matching clause decides (proved); usefulness recursion and structured patterns by bounded differential',
         unverified=['usefulness, split_ctor, specialize for tuple / struct / enum / array constructors (recursion over pattern stacks): bounded differential only',
                     'Pattern::type_check (that every integer pattern is passed to expect_pattern_in_range), range pattern parsing',
-                    'Match arm of TypedExpr::compile (has_prev_match chain, mux of results, environments and panic records) and the tuple / struct / enum arms of '
-                    'TypedPattern::compile: bounded differential only'],
+                    'tuple / struct / enum arms of TypedPattern::compile, bindings of the selected arm (environment merge mux_envs): bounded differential only'],
     ),
 }
